@@ -231,6 +231,33 @@ fn run_load(cx: &mut Cx, rep: &mut Report, content: &str, origin: &str) {
 fn comps(p: &Path) -> Vec<String> {
     p.components().filter(|c| !matches!(c, std::path::Component::RootDir)).map(|c| c.as_os_str().to_string_lossy().to_string()).collect()
 }
+/// the components cut at every '%' (Coq: C07Collide.pct_split)
+fn pct_split(c: &[String]) -> Vec<String> {
+    c.iter().flat_map(|x| x.split('%').map(|p| p.to_string()).collect::<Vec<_>>()).collect()
+}
+/// C: do two paths share their file dictionary?  real file_dict_name on both vs C07Collide.x_f20_collide
+fn run_collide(rep: &mut Report, p: &str, q: &str, origin: &str) {
+    let (Ok(up), Ok(uq)) = (Url::from_file_path(p), Url::from_file_path(q)) else { return };
+    let (Ok(dp), Ok(dq)) = (up.to_file_path(), uq.to_file_path()) else { return };
+    let (Some(sp), Some(sq)) = (dp.to_str(), dq.to_str()) else { return };
+    rep.eval();
+    let same = match (file_dict_name(&up), file_dict_name(&uq)) {
+        (Ok(a), Ok(b)) => a == b,
+        (Err(_), Err(_)) => true,
+        _ => false,
+    };
+    rep.case(&format!("C {} | {}", cps_str(sp), cps_str(sq)), if same { "1" } else { "0" });
+    rep.nontrivial(&format!("{sp}|{sq}"));
+    let (cp, cq) = (comps(&dp), comps(&dq));
+    rep.count(if cp == cq { "collide:same_file" } else if same { "collide:different_files_same_dictionary(F20)" } else { "collide:different_dictionaries" });
+    if same != (pct_split(&cp) == pct_split(&cq)) {
+        rep.fail(
+            "file-dict-name-collision:unexplained",
+            format!("/{} and /{}: same dictionary file = {same}, but same pieces between '%' = {}", cp.join("/"), cq.join("/"), !same),
+            json!({"kind": "collide", "p": p, "q": q, "origin": origin}),
+        );
+    }
+}
 fn run_name(cx: &mut Cx, rep: &mut Report, path: &str, origin: &str) {
     let Ok(url) = Url::from_file_path(path) else {
         rep.count("name:not_a_file_url");
@@ -266,8 +293,9 @@ fn run_name(cx: &mut Cx, rep: &mut Report, path: &str, origin: &str) {
                 if *c0 != c {
                     // F20 = the two paths collide under the documented mangling (components joined by '%'); any
                     // other collision is a different defect
-                    let refm = |v: &Vec<String>| v.iter().map(|x| format!("{x}%")).collect::<String>();
-                    let class = if refm(c0) == refm(&c) { "file-dict-name-collision" } else { "file-dict-name-collision:unexplained" };
+                    // (Coq: C07_f20_class — same dictionary file <-> same pieces between '%' characters; the model's decision for
+                    // this very pair is compared in stream C)
+                    let class = if pct_split(c0) == pct_split(&c) { "file-dict-name-collision" } else { "file-dict-name-collision:unexplained" };
                     rep.fail(
                         class,
                         format!("two different files share the dictionary file {:?}: /{} and /{}", n, c0.join("/"), c.join("/")),
@@ -1096,7 +1124,10 @@ fn run_hist(cx: &mut Cx, rep: &mut Report, h: &Hist, origin: &str) {
                             // why? (features of the input only)
                             // (a seed or a concurrent batch logs several adds under one op index: the one of this very word is meant)
                             let target_of_add = add_log.iter().find(|(i, k, w)| i == ai && w == t && (k == "user" || *k == my_key)).map(|(_, k, _)| k.clone()).unwrap_or_default();
-                            let later_variant = add_log.iter().any(|(i, k, w)| i > ai && *k == target_of_add && w != t && real_id(w) == real_id(t));
+                            let norm = |x: &String| -> String { x.chars().map(norm_char).collect() };
+                            // exactly the class C07_add_sequential excludes: a later add to the same dictionary with the same id whose
+                            // spelling differs by more than the kind of apostrophe
+                            let later_variant = add_log.iter().any(|(i, k, w)| i > ai && *k == target_of_add && norm(w) != norm(t) && real_id(w) == real_id(t));
                             // ... or an add for ANOTHER file whose dictionary is the same file on disk (F20)
                             let phys = |k: &String| -> Option<PathBuf> {
                                 if k == "user" {
@@ -1298,7 +1329,8 @@ fn run_hist(cx: &mut Cx, rep: &mut Report, h: &Hist, origin: &str) {
                                 "file-scope-leak"
                             } else if adds.iter().any(|w| !line_safe(w)) {
                                 "reload:newline"
-                            } else if missing.iter().all(|m| adds.iter().any(|w| w != **m && real_id(w) == real_id(m))) && extra.is_empty() {
+                            } else if missing.iter().all(|m| adds.iter().rev().find(|w| real_id(w) == real_id(m)).map(|w| w != **m).unwrap_or(false)) && extra.is_empty() {
+                                // exactly C07_f15_reload_class: the last word added with the id of the missing one is another spelling
                                 "reload:case-collision"
                             } else {
                                 "reload"
@@ -2005,6 +2037,7 @@ fn run_input(cx: &mut Cx, rep: &mut Report, v: &Value, origin: &str) {
                 run_hist(cx, rep, &h, origin)
             }
         }
+        "collide" => run_collide(rep, v["p"].as_str().unwrap_or("/"), v["q"].as_str().unwrap_or("/"), origin),
         "order" => run_order(cx, rep, v["seed_words"].as_u64().unwrap_or(2) as usize, v["word"].as_str().unwrap_or("gamma"), v["file"].as_bool().unwrap_or(false), origin),
         "stale-linter" => probe_stale(cx, rep, v["rounds"].as_u64().unwrap_or(40), origin),
         "par-same" => probe_par_same(cx, rep, v["rounds"].as_u64().unwrap_or(5), origin),
@@ -2043,6 +2076,22 @@ fn main() {
         for _ in 0..args.scale(300, 3000) {
             let p = gen_path(&mut r);
             run_name(&mut cx, &mut rep, &p, "gen");
+        }
+        // C: pairs of paths: independent, and one derived from the other by trading '/' for '%' and back
+        for _ in 0..args.scale(300, 3000) {
+            let p = gen_path(&mut r);
+            let q = if r.chance(1, 2) {
+                gen_path(&mut r)
+            } else {
+                let mut cs: Vec<char> = p.chars().collect();
+                for i in 1..cs.len() {
+                    if (cs[i] == '/' || cs[i] == '%') && r.chance(1, 2) {
+                        cs[i] = if cs[i] == '/' { '%' } else { '/' };
+                    }
+                }
+                cs.into_iter().collect()
+            };
+            run_collide(&mut rep, &p, &q, "gen");
         }
         for i in 0..args.scale(60, 600) {
             let h = gen_hist(&mut r, false, i % 5 == 4);
